@@ -76,7 +76,9 @@ TableIs(t, T) ==
 NkOK(e) ==
    LET c == e.ctx
        T == BuildTable(c.samples, c.names, c.k, c.rc)
-   IN e.panic = "" /\ TableIs(e.table, T)
+   IN IF BuildRefused(c.samples, c.k, c.rc) THEN e.panic # ""   \* a sample without any window: refused
+      ELSE
+      e.panic = "" /\ TableIs(e.table, T)
       /\ (Has(c, "perm") =>      \* C02: permuting the input samples permutes the columns
             LET U == BuildTable(c.orig, c.orignames, c.k, c.rc) IN
             /\ \A i \in 1..Len(c.perm) : c.samples[i] = c.orig[c.perm[i]] /\ c.names[i] = c.orignames[c.perm[i]]
